@@ -9,13 +9,17 @@ package main
 //          different modes; mode= is then the mode of the vocabulary, the other decoder's output is listed as dex:),
 //          retry=<s>, end=<ms> (wait after the scripts, then cancel),
 //          cap=<ms> (upper bound for the scripts), voc=<n>:<hex,…> (payloads / trimmed lines whose decoder output
-//          the trace must contain), heap=1 (run alone; report bytes allocated during the run), qcap=<n>.
+//          the trace must contain), heap=1 (run alone; report bytes allocated during the run), qcap=<n>,
+//          rxq=1 (the panel records what it receives by count only: scripts in which the client writes megabytes).
 // panel actions: see netpanel.go.   submitter actions: h[<k>] (wait for the k-th onconnect, default 1), m<n>:<hex,…>
 // (hand one message list to the client; items = proto.Marshal of InboundMessages), s<ms>, B<count>x<size> (hand over
 // one list of <count> graphics states of <size> image bytes each: enough to fill the socket buffers; traced as
-// big:g:i:count:size without its bytes).
+// big:g:i:count:size:bf:bb:al:ab without its bytes: bf frames / bb bytes is what the list is on the wire in binary mode,
+// al lines / ab bytes in ASCII mode (computed only when the list is handed over on the script's last connection and that
+// connection speaks ASCII; 0 otherwise)).
 // The executor runs the real ConnectToPanel (net.c08/c09/c10/c12c) or AutoDetectIfPanelEncodingIsBinary
-// (net.c12d) in-process against the scripted panel and prints the trace (netpanel.go) as the record's output.
+// (net.c12d: once per scripted connection, one after the other) in-process against the scripted panel and prints the
+// trace (netpanel.go) as the record's output.
 
 import (
 	"context"
@@ -102,6 +106,7 @@ type ndScript struct {
 	endMs  int
 	capMs  int
 	heap   bool
+	rxq    bool
 	qcap   int
 	voc    [][]byte
 	conns  []ConnScript
@@ -140,6 +145,8 @@ func ndParse(cmd string, args []string) ndScript {
 				sc.heap = kv[1] == "1"
 			case "qcap":
 				sc.qcap = atoi(kv[1])
+			case "rxq":
+				sc.rxq = kv[1] == "1"
 			case "voc":
 				sc.voc = ndParseItems(kv[1])
 			}
@@ -234,6 +241,20 @@ func ndDecTable(tr *NetTrace, sc ndScript) {
 	}
 }
 
+// the list of submitter action B<count>x<size>: <count> graphics states of <size> image bytes each
+func ndBigList(count, size int) []*rwp.InboundMessage {
+	msgs := make([]*rwp.InboundMessage, count)
+	for i := range msgs {
+		img := make([]byte, size)
+		for j := range img {
+			img[j] = byte(i*31 + j*7)
+		}
+		msgs[i] = &rwp.InboundMessage{States: []*rwp.HWCState{{HWCIDs: []uint32{uint32(500 + i)},
+			HWCGfx: &rwp.HWCGfx{ImageType: rwp.HWCGfx_RGB16bit, W: 320, H: 240, ImageData: img}}}}
+	}
+	return msgs
+}
+
 func ndRunClient(sc ndScript) string {
 	tr := NewNetTrace()
 	ndDecTable(tr, sc)
@@ -244,7 +265,7 @@ func ndRunClient(sc ndScript) string {
 		runtime.GC()
 		runtime.ReadMemStats(&m0)
 	}
-	panel, err := NewScriptedPanel(tr, sc.conns)
+	panel, err := NewScriptedPanelQ(tr, sc.conns, sc.rxq)
 	if err != nil {
 		return "panic:listen@0"
 	}
@@ -315,16 +336,26 @@ func ndRunClient(sc ndScript) string {
 					}
 					waitCond(&panel.mu, panel.cond, wait, func() bool { return panel.connected >= a.Ms || panel.closed })
 				case 'B':
-					msgs := make([]*rwp.InboundMessage, a.N)
-					for i := range msgs {
-						img := make([]byte, a.Ms)
-						for j := range img {
-							img[j] = byte(i*31 + j*7)
-						}
-						msgs[i] = &rwp.InboundMessage{States: []*rwp.HWCState{{HWCIDs: []uint32{uint32(500 + i)},
-							HWCGfx: &rwp.HWCGfx{ImageType: rwp.HWCGfx_RGB16bit, W: 320, H: 240, ImageData: img}}}}
+					msgs := ndBigList(a.N, a.Ms)
+					// what the list amounts to on the wire (the bytes themselves are not traced)
+					bf, bb, al, ab := len(msgs), 0, 0, 0
+					for _, m := range msgs {
+						bb += 4 + proto.Size(m)
 					}
-					tr.Add("big:%d:%d:%d:%d", g, n, a.N, a.Ms)
+					panel.mu.Lock()
+					onLast := panel.connected >= len(sc.conns)
+					panel.mu.Unlock()
+					lastMode := sc.mode
+					if sc.modes != "" {
+						lastMode = sc.modes[len(sc.modes)-1:]
+					}
+					if onLast && lastMode == "a" {
+						for _, l := range rawpanellib.InboundMessagesToRawPanelASCIIstrings(msgs) {
+							al++
+							ab += len(l) + 1
+						}
+					}
+					tr.Add("big:%d:%d:%d:%d:%d:%d:%d:%d", g, n, a.N, a.Ms, bf, bb, al, ab)
 					select {
 					case toPanel <- msgs:
 					case <-ctx.Done():
@@ -408,21 +439,36 @@ func ndRunDetector(sc ndScript) string {
 	if err != nil {
 		return "panic:listen@0"
 	}
-	c, err := net.Dial("tcp", panel.Addr())
-	if err != nil {
-		panel.Close()
-		return "panic:dial@0"
-	}
-	var res bool
-	if p := guarded(func() { res = rawpanellib.AutoDetectIfPanelEncodingIsBinary(c, panel.Addr()) }); p != "" {
-		tr.Add("%s", strings.ReplaceAll(p, "@", "_"))
-	} else {
-		tr.Add("det:%s", b01(res))
+	// the stand-alone detector is called once per scripted connection, one call after the other (each on a fresh
+	// connection): whatever an earlier call saw must not influence a later one
+	var last net.Conn
+	for k := range sc.conns {
+		c, err := net.Dial("tcp", panel.Addr())
+		if err != nil {
+			panel.Close()
+			return "panic:dial@0"
+		}
+		var res bool
+		if p := guarded(func() { res = rawpanellib.AutoDetectIfPanelEncodingIsBinary(c, panel.Addr()) }); p != "" {
+			tr.Add("%s", strings.ReplaceAll(p, "@", "_"))
+		} else {
+			tr.Add("det:%s", b01(res))
+		}
+		if k < len(sc.conns)-1 {
+			panel.WaitScript(k, time.Duration(sc.capMs)*time.Millisecond)
+			time.Sleep(60 * time.Millisecond)
+			c.Close()
+			time.Sleep(20 * time.Millisecond)
+		} else {
+			last = c
+		}
 	}
 	panel.WaitScripts(time.Duration(sc.capMs) * time.Millisecond)
 	time.Sleep(time.Duration(sc.endMs) * time.Millisecond)
 	tr.Add("cancel")
-	c.Close()
+	if last != nil {
+		last.Close()
+	}
 	time.Sleep(20 * time.Millisecond)
 	panel.Close()
 	return tr.String()
@@ -1095,6 +1141,53 @@ func genC10(r *Rng, n int, tier string) {
 		d = []string{ndS(idle), ndW(f40[:2]), ndS(3000), "c"}
 		recs = append(recs, ndRecOf("net.c10", []string{"mode=b", "end=400", ndVoc(voc)}, ndHandshake("b"), d, next))
 	}
+	// (8) the reader ends the connection by its own decision — over-limit header, bytes that are no frame at all
+	// (text sent to a binary client: its first four bytes are an over-limit header), a frame stalled inside its header or
+	// inside its payload — in every state of the writer goroutine: idle (nothing handed over), in the middle of writing a
+	// long list to a panel that reads, and blocked in conn.Write (the panel has stopped reading, megabytes are queued).
+	// Whatever the writer does, the connection is dropped promptly, reported as an uncancelled disconnect, and the client
+	// reconnects (the next connection delivers again).
+	type endDef struct {
+		name  string
+		fault []string // panel actions that make the reader give the connection up
+	}
+	ends := []endDef{
+		{"over", []string{ndW(append(ndHeader(500000), tail2...)), ndS(300), ndW(tail2), ndS(900)}},
+		{"garbage", []string{ndW([]byte("HWC#5=Down\nping\n")), ndS(1200)}},
+		{"stall-header", []string{ndW(f40[:2]), ndS(3000), "c"}},
+		{"stall-payload", []string{ndW(f40[:20]), ndS(3000), "c"}},
+	}
+	for ei, e := range ends {
+		for wi, wr := range []string{"idle", "midwrite", "blocked"} {
+			for _, first := range []bool{true, false} {
+				if !thorough && first != ((ei+wi)%2 == 0) {
+					continue // quick: the fault first on the connection / after a valid frame, alternating
+				}
+				opts := []string{"mode=b", "end=400", ndVoc(voc)}
+				c0 := ndHandshake("b")
+				sub := []string{}
+				switch wr {
+				case "midwrite": // the list is handed over as soon as the connection is up; the panel reads it
+					opts = append(opts, "rxq=1")
+					sub = []string{"sub", "h", "B60x400000"}
+					c0 = append(c0, fmt.Sprintf("p%d:4000", 1000000+500000*ei)) // the fault comes when 1-2.5 of the 24 MB have arrived
+				case "blocked": // the panel stops reading; 16 MB are handed over; the writer sits in conn.Write
+					opts = append(opts, "rxq=1")
+					sub = []string{"sub", "h", ndS(150), "B40x400000"}
+					c0 = append(c0, "z", ndS(700))
+				}
+				if !first {
+					c0 = append(c0, ndW(ndFrame(good[0])))
+				}
+				c0 = append(c0, e.fault...)
+				if len(sub) > 0 {
+					recs = append(recs, ndRecOf("net.c10", opts, c0, next, sub))
+				} else {
+					recs = append(recs, ndRecOf("net.c10", opts, c0, next))
+				}
+			}
+		}
+	}
 	_ = n
 	ndEmitBatch(recs)
 }
@@ -1247,6 +1340,46 @@ func genC09(r *Rng, n int, tier string) {
 		ptoks = append(ptoks, fmt.Sprintf("p%d:9000", total))
 		recs = append(recs, ndRecOf("net.c09", []string{"mode=" + mode, "end=150", ndVoc(voc)}, ptoks, toks))
 	}
+	// lists the trace does not carry byte for byte (B<count>x<size>: graphics states of 30-60 kB, several hundred kB per
+	// list) handed over on the checked connection, between listed ones and concurrently with a second goroutine: the
+	// monitor demands them as that many frames / lines with that many bytes, contiguous, at their place in the order
+	for bi, mode := range []string{"b", "a", "b"} {
+		total := 6
+		if mode == "a" {
+			total++
+		}
+		wire := func(msgs []*rwp.InboundMessage) int {
+			t := 0
+			if mode == "a" {
+				for _, l := range rawpanellib.InboundMessagesToRawPanelASCIIstrings(msgs) {
+					t += len(l) + 1
+				}
+			} else {
+				for _, m := range msgs {
+					t += 4 + proto.Size(m)
+				}
+			}
+			return t
+		}
+		subSecs := [][]string{}
+		for g := 0; g < 1+bi%2+bi/2; g++ {
+			toks := []string{"sub", "h"}
+			for i := 0; i < 4; i++ {
+				if (i+g)%2 == 1 {
+					cnt, sz := 3+r.Intn(4), 30000+1000*r.Intn(30)
+					total += wire(ndBigList(cnt, sz))
+					toks = append(toks, fmt.Sprintf("B%dx%d", cnt, sz))
+				}
+				m := ndInMsg(r, uint32(700+g*100+i), r.Pick(0, 1, 3, 4))
+				b, _ := proto.Marshal(m)
+				total += wire([]*rwp.InboundMessage{m})
+				toks = append(toks, "m"+ndItems([][]byte{b}))
+			}
+			subSecs = append(subSecs, toks)
+		}
+		ptoks := append(ndHandshake(mode), fmt.Sprintf("p%d:8000", total))
+		recs = append(recs, ndRecOf("net.c09", []string{"mode=" + mode, "end=150", ndVoc(nil)}, append([][]string{ptoks}, subSecs...)...))
+	}
 	// a connection is lost and the client reconnects by itself; what is handed over on the new connection must reach the
 	// panel completely and in order.  The loss happens while the writer goroutine of the old connection is busy (the panel
 	// has stopped reading and the list being written is larger than the socket buffers: blocked in conn.Write) or idle;
@@ -1356,57 +1489,195 @@ func genC09(r *Rng, n int, tier string) {
 // ---------------------------------------------------------------------------------------------------
 func genC12(r *Rng, n int, tier string) {
 	recs := []ndRec{}
-	replies := [][]byte{
-		ndFrame(ndAck),                    // acknowledge frame
-		ndFrame(ndPingOut),                // another well-formed frame
-		ndFrame(ndEvent(5, true)),         // another well-formed frame
-		[]byte("RDY\n"),                   // ASCII ready word
-		[]byte("RDY\nmap=1:2\n"),          // ready word with more behind it
-		[]byte("map=12:34\n"),             // map line
-		[]byte("map=1:1\nmap=2:2\nRDY\n"), // several map lines
-		[]byte("ErrorMsg=Panel is busy serving another client\n"),
-		[]byte("ErrorMsg=Locked\nBSY\n"),
-		[]byte("ErrorMsg=no newline"),
-		[]byte("ErrorMsg=Max connections reached (limit=1), locked by IP=10.0.0.5\n"), // '=' inside the message text
-		[]byte("BSY\n"),
-		[]byte("list\n_model=SK_X\n"),
-		[]byte("nack\n"),
-		{1, 2},                                        // short, not text
-		{0, 0, 0, 0},                                  // a frame with an empty payload (4 bytes)
-		{9, 0, 0, 0, 8, 2},                            // header does not match the byte count
-		append(ndFrame(ndAck), ndFrame(ndPingOut)...), // two frames in one segment
+	thorough := tier == "thorough"
+	type rep struct {
+		name string
+		b    []byte
 	}
-	delays := []int{0, 500, 1900}
-	if tier == "thorough" {
-		delays = []int{0, 100, 500, 1000, 1500, 1800, 1900}
+	// the reply classes the property names, for both entry points …
+	named := []rep{
+		{"ack", ndFrame(ndAck)},                      // acknowledge frame
+		{"rdy", []byte("RDY\n")},                     // ASCII ready word
+		{"rdy+", []byte("RDY\nmap=1:2\n")},           // ready word with more behind it
+		{"map", []byte("map=12:34\n")},               // map line
+		{"maps", []byte("map=1:1\nmap=2:2\nRDY\n")}, // several map lines
 	}
+	// … and for the reconnecting client: any other text reply, with or without an error message
+	namedClient := []rep{
+		{"err", []byte("ErrorMsg=Panel is busy serving another client\n")},
+		{"err2", []byte("ErrorMsg=Locked\nBSY\n")},
+		{"err-nolf", []byte("ErrorMsg=no newline")},
+		{"err-eq", []byte("ErrorMsg=Max connections reached (limit=1), locked by IP=10.0.0.5\n")}, // '=' inside the message text
+		{"bsy", []byte("BSY\n")},
+		{"list", []byte("list\n_model=SK_X\n")},
+		{"nack", []byte("nack\n")},
+	}
+	// replies for which the property fixes no verdict (compared with the model, not judged; kept away from the window's end)
+	unnamedClient := []rep{
+		{"frame-ping", ndFrame(ndPingOut)},                           // another well-formed frame
+		{"short", []byte{1, 2}},                                      // short, not text
+		{"mismatch", []byte{9, 0, 0, 0, 8, 2}},                       // header does not match the byte count
+		{"two-frames", append(ndFrame(ndAck), ndFrame(ndPingOut)...)}, // two frames in one segment
+	}
+	unnamedDetector := []rep{
+		{"frame-event", ndFrame(ndEvent(5, true))},
+		{"empty-frame", []byte{0, 0, 0, 0}}, // a frame with an empty payload (4 bytes)
+	}
+	if thorough {
+		unnamedClient = append(unnamedClient, unnamedDetector...)
+		unnamedDetector = unnamedClient
+	}
+	// reply delays: well inside the window, and 200 ms before its end (there the monitor decides alone: B:tight-margin);
+	// nothing is scheduled within 100 ms of the end (the monitor does not judge replies within 50 ms of it)
+	delays := []int{0, 600, 1200, 1800}
+	closeDelays := map[int]bool{0: true, 1200: true}
+	if thorough {
+		delays = []int{0, 100, 600, 1000, 1200, 1500, 1700, 1800}
+		closeDelays = map[int]bool{0: true, 100: true, 600: true, 1000: true, 1200: true, 1500: true, 1700: true, 1800: true}
+	}
+	one := func(reply []byte, d int, cl bool, last bool) []string { // one connection: reply after d ms, then close or stay
+		toks := []string{"conn", "p6"}
+		if d > 0 {
+			toks = append(toks, ndS(d))
+		}
+		if reply != nil {
+			toks = append(toks, ndW(reply))
+		}
+		if cl {
+			toks = append(toks, "s30", "c")
+		} else if last {
+			toks = append(toks, "s150")
+		}
+		return toks
+	}
+	capOf := func(secs [][]string) string {
+		c := 6000 + 2500*(len(secs)-1)
+		for _, sec := range secs {
+			for _, t := range sec {
+				if t[0] == 's' {
+					c += atoi(t[1:])
+				}
+			}
+		}
+		return "cap=" + strconv.Itoa(c)
+	}
+	// (A) several connections of ONE call of the entry point: the reconnecting client probes every new connection (the
+	// panel drops the earlier ones; the client reconnects by itself), the stand-alone detector is called once per
+	// connection.  Every connection is judged by what the panel replies on that connection: reply class x delay on the
+	// 2nd and 3rd connection, after every kind of earlier connection (binary; ASCII by ready word; ASCII by silence;
+	// error message and close).
+	earlier := map[string][]string{
+		"B": one(ndFrame(ndAck), 0, true, false),
+		"R": one([]byte("RDY\n"), 0, true, false),
+		"S": {"conn", "p6", "s2400", "c"},
+		"E": one([]byte("ErrorMsg=Panel busy, try again\n"), 0, true, false),
+	}
+	type multi struct {
+		cmd  string
+		pre  []string
+		last rep
+		d    int
+	}
+	ms := []multi{}
+	ack, rdy, mp, errr := named[0], named[1], named[3], namedClient[0]
+	if thorough {
+		for _, e := range []string{"B", "R", "S", "E"} {
+			for _, rp := range []rep{ack, rdy, mp, errr} {
+				for _, d := range []int{0, 600, 1200, 1800} {
+					ms = append(ms, multi{"net.c12c", []string{e}, rp, d})
+					if rp.name != "err" && (d == 1200 || d == 1800) {
+						ms = append(ms, multi{"net.c12d", []string{e}, rp, d})
+					}
+				}
+			}
+			for _, e2 := range []string{"B", "R", "S", "E"} {
+				ms = append(ms, multi{"net.c12c", []string{e, e2}, ack, 1200}, multi{"net.c12c", []string{e, e2}, ack, 1800}, multi{"net.c12c", []string{e, e2}, rdy, 600})
+			}
+		}
+	} else {
+		for _, e := range []string{"B", "R", "S", "E"} {
+			ms = append(ms, multi{"net.c12c", []string{e}, ack, 600}, multi{"net.c12c", []string{e}, ack, 1200},
+				multi{"net.c12c", []string{e}, ack, 1800}, multi{"net.c12c", []string{e}, rdy, 600},
+				multi{"net.c12c", []string{e}, rdy, 1800}, multi{"net.c12c", []string{e}, mp, 1200},
+				multi{"net.c12c", []string{e}, errr, 1200},
+				multi{"net.c12d", []string{e}, ack, 1200}, multi{"net.c12d", []string{e}, ack, 1800},
+				multi{"net.c12d", []string{e}, rdy, 600})
+		}
+		ms = append(ms,
+			multi{"net.c12c", []string{"B", "R"}, ack, 1200}, multi{"net.c12c", []string{"R", "S"}, ack, 1800},
+			multi{"net.c12c", []string{"S", "E"}, ack, 600}, multi{"net.c12c", []string{"E", "B"}, rdy, 1800},
+			multi{"net.c12c", []string{"R", "R"}, ack, 1200}, multi{"net.c12c", []string{"B", "B"}, mp, 600},
+			multi{"net.c12c", []string{"R", "E"}, errr, 1800}, multi{"net.c12c", []string{"S", "S"}, ack, 1200},
+			multi{"net.c12d", []string{"R", "R"}, ack, 1200}, multi{"net.c12d", []string{"S", "B"}, mp, 1800})
+	}
+	for _, m := range ms {
+		secs := [][]string{}
+		for _, e := range m.pre {
+			secs = append(secs, earlier[e])
+		}
+		secs = append(secs, one(m.last.b, m.d, false, true))
+		recs = append(recs, ndRecOf(m.cmd, []string{"end=300", capOf(secs)}, secs...))
+	}
+	// three connections in a row, each probed and dropped at once
+	recs = append(recs, ndRec{"net.c12c", []string{"end=300",
+		"conn", "p6", ndW(ndFrame(ndAck)), "s30", "c",
+		"conn", "p6", ndW(ndFrame(ndAck)), "s30", "c",
+		"conn", "p6", ndW([]byte("RDY\n")), "s150"}})
+	// (B) one probe exchange: reply class x delay x {followed by close or not} x entry point
 	for _, cmd := range []string{"net.c12c", "net.c12d"} {
-		for _, rep := range replies {
+		reps := append([]rep{}, named...)
+		if cmd == "net.c12c" {
+			reps = append(reps, namedClient...)
+		}
+		for _, rp := range reps {
 			for _, d := range delays {
 				for _, cl := range []bool{false, true} {
-					toks := []string{"conn", "p6"}
-					if d > 0 {
-						toks = append(toks, ndS(d))
+					if cl && !closeDelays[d] {
+						continue
 					}
-					toks = append(toks, ndW(rep))
-					if cl {
-						toks = append(toks, "s30", "c")
-					} else {
-						toks = append(toks, "s150")
-					}
-					recs = append(recs, ndRec{cmd, append([]string{"end=250"}, toks...)})
+					recs = append(recs, ndRec{cmd, append([]string{"end=250"}, one(rp.b, d, cl, true)...)})
 				}
+			}
+		}
+		// replies the property fixes no verdict for
+		un := unnamedClient
+		if cmd == "net.c12d" {
+			un = unnamedDetector
+		}
+		for _, rp := range un {
+			for _, d := range delays {
+				if d != 0 && !(thorough && d <= 1200) {
+					continue
+				}
+				recs = append(recs, ndRec{cmd, append([]string{"end=250"}, one(rp.b, d, false, true)...)})
+			}
+		}
+		if cmd == "net.c12d" { // text replies other than ready word / map: named for the client only
+			for i, rp := range namedClient {
+				if !thorough && i != 0 && i != 4 {
+					continue
+				}
+				recs = append(recs, ndRec{cmd, append([]string{"end=250"}, one(rp.b, 0, false, true)...)})
 			}
 		}
 		// replies that reach the single probe Read in two segments (an acknowledge frame whose header and payload are
 		// written separately, a ready word cut in two): outside the property's domain (the monitor skips them,
 		// B:skip-reply-in-several-segments), but the model's verdict for the first segment is still compared
-		for _, sp := range []struct {
+		type split struct {
 			rep []byte
 			k   int
-		}{{ndFrame(ndAck), 4}, {ndFrame(ndAck), 1}, {ndFrame(ndAck), 2}, {ndFrame(ndAck), 5}, {[]byte("RDY\n"), 2}, {[]byte("map=1:2\n"), 4}} {
+			cmd string // "" = both entry points
+		}
+		splits := []split{{ndFrame(ndAck), 4, ""}, {ndFrame(ndAck), 1, "net.c12c"}, {[]byte("RDY\n"), 2, "net.c12d"}}
+		if thorough {
+			splits = []split{{ndFrame(ndAck), 4, ""}, {ndFrame(ndAck), 1, ""}, {ndFrame(ndAck), 2, ""}, {ndFrame(ndAck), 5, ""}, {[]byte("RDY\n"), 2, ""}, {[]byte("map=1:2\n"), 4, ""}}
+		}
+		for _, sp := range splits {
+			if sp.cmd != "" && sp.cmd != cmd {
+				continue
+			}
 			for _, d := range []int{0, 500} {
-				if tier != "thorough" && d > 0 && sp.k != 4 {
+				if !thorough && d > 0 {
 					continue
 				}
 				toks := []string{"conn", "p6"}
@@ -1423,13 +1694,10 @@ func genC12(r *Rng, n int, tier string) {
 		recs = append(recs, ndRec{cmd, []string{"end=300", "conn", "p6", "s2400", ndW([]byte("RDY\n")), "s100"}})
 		recs = append(recs, ndRec{cmd, []string{"end=300", "conn", "p6", "s2400", "c"}})
 		recs = append(recs, ndRec{cmd, []string{"end=300", "conn", "p6", "s500", "c"}})
-		recs = append(recs, ndRec{cmd, []string{"end=300", "conn", "p6", "c"}})
+		if cmd == "net.c12c" || thorough {
+			recs = append(recs, ndRec{cmd, []string{"end=300", "conn", "p6", "c"}})
+		}
 	}
-	// the reconnecting client probes every new connection: three connections in a row, each probed and dropped
-	recs = append(recs, ndRec{"net.c12c", []string{"end=300",
-		"conn", "p6", ndW(ndFrame(ndAck)), "s30", "c",
-		"conn", "p6", ndW(ndFrame(ndAck)), "s30", "c",
-		"conn", "p6", ndW([]byte("RDY\n")), "s150"}})
 	_ = n
 	_ = r
 	ndEmitBatch(recs)
